@@ -258,6 +258,29 @@ func newReal(mode int) *realSt {
 	return R
 }
 
+// journalReload: Tree.Journal(root) writes the diff layers into the database; a new tree is loaded
+// from the database (no rebuild from the trie: NoBuild, so a journal that does not load is an error,
+// not silently repaired) and replaces the old one.
+func (R *realSt) journalReload(root common.Hash) error {
+	old := R.snaps
+	drop := func() { // Journal has stopped the generator: the old tree must not be Disable()d any more
+		snapshot.VerifResetCachesC08(old)
+		R.snaps = nil
+	}
+	if _, err := R.snaps.Journal(root); err != nil {
+		drop()
+		return fmt.Errorf("Tree.Journal: %v", err)
+	}
+	nt, err := snapshot.New(snapshot.Config{CacheSize: 1, NoBuild: true}, R.disk, R.db.TrieDB(), root)
+	if err != nil || nt == nil {
+		drop()
+		return fmt.Errorf("snapshot.New (reload from journal): %v", err)
+	}
+	snapshot.VerifResetCachesC08(R.snaps)
+	R.snaps = nt
+	return nil
+}
+
 func (R *realSt) release() {
 	if R.snaps != nil {
 		snapshot.VerifReleaseC08(R.snaps)
